@@ -164,7 +164,7 @@ def shards(tier):
                     out.append(('window', {'profile': profile, 'persistent': persistent, 'k': 6 if T else 4, 'maxpub': 5 if T else 3,
                                            'first': first, 'second': second}))
                     if second in ('publish', 'PUBACK', 'PUBREC', 'setWindowSize') or T:
-                        out.append(('window', {'profile': profile, 'persistent': persistent, 'k': 5 if T else 3, 'maxpub': 5 if T else 4,
+                        out.append(('window', {'profile': profile, 'persistent': persistent, 'k': 4 if T else 3, 'maxpub': 5 if T else 4,
                                                'first': first, 'second': second, 'early': 2}))
     return out
 
